@@ -95,7 +95,7 @@ def sign_row_matches(cp, lib, row, rvals):
 
 def sign_symptom(bad):
     v, got, exp, ks = bad[0]
-    if all(g is not None and all(e is None for e in ex) and 0 in k for _, g, ex, k in bad): return "signs-with-zero-secret"
+    if all(g is not None and 0 in k for _, g, ex, k in bad): return "signs-with-zero-secret"      # only random values that stand for 0 differ
     if got is not None and all(e is None for e in exp): return "signs-where-no-signature-exists"
     if got is None: return "fails-for-valid-input"
     return "wrong-signature"
@@ -303,7 +303,7 @@ def choose_slice(ctx, cp, rng, all_keys):
                     K["SignEAll" + sfx[alg]] |= es_of(h)
                     for d in cp.dall: pl["sign"].append((alg, api, d, h))
     # ---- verification on pair lists
-    nv, ni = ((4, 5) if quick else (40, 40)) if cp.small else ((3, 3) if quick else (8, 12))
+    nv, ni = ((4, 5) if quick else (28, 28)) if cp.small else ((3, 3) if quick else (6, 8))
     vq = sorted(set(rng.sample(valid, min(nv, len(valid))) + [valid[0]]))
     iq = sorted(set(rng.sample(invalid, min(ni, len(invalid))) + neutral))
     K["VlQ"] = set(vq + iq)
@@ -373,7 +373,7 @@ def tier_b(ctx, F, builds):
     def run_build(ib):
         i, b = ib
         n = 0
-        share = 1.0 if i == 0 else (0.3 if b.asan else 0.5)
+        share = 1.0 if i == 0 else ((0.3 if b.asan else 0.5) if ctx.quick else (0.12 if b.asan else 0.3))
         r2 = random.Random(ctx.seed * 31 + i)
         def cut(lst):
             return lst if share >= 1.0 else [x for x in lst if r2.random() < share]
